@@ -22,6 +22,7 @@ EXPLANATION = (
     "blocker.check_generic_hide on a request whose source is the page URL itself."
     ' Later additions: rule hostnames are hashed lower-cased; generichide is false for unsupported schemes; the per-label loops of hostname_cosmetic_resources are never left by a `break` and use no truncating adapter; the wire slots of the per-host stores are positional and written unconditionally (C08.2).'
     ' Round 6: every return of get_hashes_from_labels pushes the whole-host hash except the one under end == 0; no update of a host-specific result set is control-dependent on `generichide`; a scriptlet exception shrinks script_injections by one remove(<its text>) / one clear() only; the cosmetic parser receives the trimmed line (C11.2 borrowed).'
+    ' Round 8: outside the two query functions nothing in cosmetic_filter_cache.rs removes entries from a collection (stores only grow); every field of the cosmetic stores, also a newly added derived one, is covered by the serialization rules (C08.1 borrowed for any field).'
 )
 NOT_DECIDED = "The label / public-suffix arithmetic (which suffixes a hostname produces) — runtime values."
 
@@ -190,6 +191,22 @@ def rule_pairing(run, F, cfg):
         if ("remove", "up:specific_hide_selectors") in names and ("insert", "up:exceptions") in names:
             unhide_ok = True
         if ("entry", "up:script_injections") in names:
+            inject_ok = True
+    # the same written as `for` loops in the function itself: both calls sit in one loop body (the loop over the bin)
+    from analysis.guards import natural_loops as _nl
+    for g_ in [x for x in cone if "{closure" not in x.name]:
+        loops_ = _nl(g_)
+        sites_ = [(b, strip_generics(t["callee"]).split("::")[-1], g_.vexpr_operand(t["args"][0]))
+                  for b, t in g_.calls(r"HashSet::(remove|insert)$|HashMap::entry$")]
+
+        def innermost(b):
+            cands = [body for h, body in loops_ if b in body]
+            return min(cands, key=len) if cands else None
+        rem = [b for b, k_, a in sites_ if (k_, a) == ("remove", "$specific_hide_selectors")]
+        ins = [b for b, k_, a in sites_ if (k_, a) == ("insert", "$exceptions")]
+        if any(innermost(r_) is not None and innermost(r_) == innermost(i_) for r_ in rem for i_ in ins):
+            unhide_ok = True
+        if any(k_ == "entry" and a == "$script_injections" and innermost(b) is not None for b, k_, a in sites_):
             inject_ok = True
     # the closure is applied to the unhide bin
     src_ok = False
